@@ -374,8 +374,19 @@ pub fn wide_lists(thorough: bool, seed: usize) -> Vec<Vec<Vec<u8>>> {
     for k in [10usize, 15, 16, 17, 31, 32, 33, 63, 64, 65, 126, 127, 128, 129, 200, 252, 253, 254, 255, 256] {
         for prefix in [&b"x"[..], &b"abc"[..]] {
             v.push((0..k).map(|i| { let mut p = prefix.to_vec(); p.push(i as u8); p }).collect());
+            if k >= 126 {
+                // ... and the same state being a match state itself
+                let mut l: Vec<Vec<u8>> = (0..k).map(|i| { let mut p = prefix.to_vec(); p.push(i as u8); p }).collect();
+                l.push(prefix.to_vec());
+                v.push(l);
+            }
         }
     }
+    // long match lists (>= 128 / 256 entries in one state) and deep inheritance chains
+    v.push((0..130).map(|_| b"ab".to_vec()).collect());
+    v.push((0..260).map(|i| if i % 2 == 0 { b"ab".to_vec() } else { b"b".to_vec() }).collect());
+    v.push((0..12).map(|k| b"abcdefghijkl"[k..].to_vec()).collect());
+    v.push((0..12).rev().map(|k| b"abcdefghijkl"[k..].to_vec()).collect());
     // >100 patterns (automatic kind selection switches away from the DFA)
     v.push((0..120u16).map(|i| vec![b'a' + (i % 26) as u8, b'a' + (i / 26) as u8, b'k']).collect());
     let mut rng = crate::gen::Rng(77 + seed as u64);
